@@ -31,7 +31,7 @@ PROPS = {
     'C02': P('other',
              'Second sentence of the property (reduced, ordered, regular high edges, unique table) is the invariant WF; its preservation is '
              'proved for find_or_add, _ite, add_var/_init_terminal/declare, incref/decref, var and collect_garbage (every clause W1-W9 '
-             're-established on every path). "Equal references iff equal functions" is WF + lemma L-CANON (Lean). swap, undeclare_vars and the '
+             're-established on every path), and established by the constructor BDD() (base case: only the terminal, every ghost family). "Equal references iff equal functions" is WF + lemma L-CANON (Lean). swap, undeclare_vars and the '
              'loaders rewrite tables wholesale and are decided by the bounded stand-in (five construction routes must agree for every function '
              'of <= 3 variables under every order; wf() after every step of histories). Category "other": mixed proof + bounded.',
              bounded=['vlib.rtc.c02'], tb=['swap, undeclare_vars, pickle/JSON loaders: bounded only'],
